@@ -78,4 +78,50 @@ PROPS = {
         "units": [unit("wb", "^TestC05", tier(40000, 8, 600), tier(2000000, 16, 3400), overlay="access")],
         "checks_expected": ["C05/equal"],
     },
+    "C03": {
+        "rule": "byte strings by constructed class (valid compressed/uncompressed of random points, 00, prefix in {00..07,ff}, length "
+                "+-1/truncated/extended, x or y in {p, p+1, p+d, 2^256-1, p-1}, x+p and y+p aliases of tiny on-curve coordinates, -y / "
+                "y+-1 / bit-flipped y, off-curve x, all one-byte strings (exhaustive as fixed cases), random, prefix/length cross-overs "
+                "and hybrid 06/07) x decoder in {Decode, DecodeCompressed, DecodeUncompressed, DecodeCoordinates, DecodeHex (case, odd "
+                "length, non-hex rune), UnmarshalBinary} x prior receiver (point spec with recipe). Oracle: acceptance predicate written "
+                "from the statement; accepted => exact point, rejected => error and unchanged receiver value. Non-trivial = every case "
+                "except random strings of a length no decoder accepts. Distinct by case hash.",
+        "units": [unit("props", "^TestC03", tier(40000, 8, 600), tier(2000000, 16, 3400, fuzztime=120), fuzz=["FuzzElementDecode"])],
+        "checks_expected": ["C03/decoders"],
+    },
+    "C08": {
+        "rule": "cases (fn in {HashToGroup, EncodeToGroup}, msg, DST, memory layouts): msg lengths around SHA-256 block boundaries "
+                "{0,1,3,16,55,56,63,64,65,119,120,128,512} or random <= 600; DST lengths {16,255,256,257,1,300,254,1000,...} or random "
+                "1..80 / 200..320, empty and nil DST; slices placed with interior offset and spare capacity. Oracle: independent RFC 9380 "
+                "implementation (sum taken on secp256k1 after the isogeny), determinism, result decodes. Non-trivial = every case with a "
+                "non-empty DST (classes of the model's branch trace are counted). Distinct by case hash.",
+        "units": [unit("props", "^TestC08", tier(8000, 8, 600), tier(400000, 16, 3400, fuzztime=120), fuzz=["FuzzHashToCurve"])],
+        "checks_expected": ["C08/hash2curve"],
+    },
+    "C09": {
+        "rule": "hash2scalar: (msg, DST, layouts) as for C08 against OS2IP(expand_message_xmd(msg, DST, 48)) mod n of the model. "
+                "widereduce: chosen 48-byte expander outputs (all ones, low/high half zero, high half all ones, multiples of n +-d, "
+                "n..3n +-d, limb patterns, random) fed to internal/scalar.HashToFieldElement; non-trivial = high half non-zero and value "
+                ">= n. expander (white-box): expandXMD(msg, DST, L) for L in {48, 96} against the model. Distinct by case hash.",
+        "units": [unit("props", "^TestC09", tier(16000, 4, 600), tier(800000, 8, 3400)),
+                  unit("internalpkg", "^TestC09", tier(160000, 4, 600), tier(6000000, 8, 3400), overlay="access")],
+        "checks_expected": ["C09/hash2scalar", "C09/widereduce", "C09/expander"],
+    },
+    "C11": {
+        "rule": "sswu: field elements u from the boundary-biased generator in canonical and Montgomery domains, the three exceptional "
+                "values 0 and +-sqrt(-1/Z) as fixed cases and with probability 1/16; oracle = RFC 9380 6.6.2 (non-straight-line) and "
+                "E.1 isogeny in the model; also on-E', sgn0 rule, SSWU(-u) = -SSWU(u), image on secp256k1. isogeny (white-box): "
+                "points of E' built by the model from boundary-biased abscissae, both signs. Non-trivial = all (duplicates removed by hash).",
+        "units": [unit("internalpkg", "^TestC11", tier(16000, 8, 600), tier(800000, 16, 3400), overlay="access")],
+        "checks_expected": ["C11/sswu", "C11/isogeny"],
+    },
+    "C12": {
+        "rule": "ops: (op, u, v, prior output value, aliasing in {none, out=u, out=v, u=v, all}) with op in {add, sub, mul, square, neg, "
+                "invert, sqrtratio, sgn0, iszero, equals, cmove(0|1), set, one, bytes}; operands boundary-biased in canonical and "
+                "Montgomery-limb domains; equals also on pairs differing in exactly one Montgomery limb; sqrtratio with 1/4 forced "
+                "squares. Oracle math/big mod p, canonicity of stored limbs. Non-trivial = an operand > 1. bytes: 32-byte strings around "
+                "p (p+-d, one limb replaced, top of range) for the parser flag/value, 48-byte classes for the wide reduction.",
+        "units": [unit("internalpkg", "^TestC12", tier(160000, 8, 600), tier(8000000, 16, 3400), fuzz=["FuzzFieldOps"])],
+        "checks_expected": ["C12/ops", "C12/bytes"],
+    },
 }
